@@ -73,7 +73,7 @@ def run(ctx):
     if ctx.replay:
         rp = json.load(open(ctx.replay))["replay"]
         events = ctx.driver(b, ["votes-steps", rp["mode"], json.dumps({"Addrs": rp["addrs"], "Init": rp["init"], "Ids": ["m1", "m2", "m3"]})],
-                            input_obj=rp["steps"])
+                            input_obj=rp["steps"], env=rp.get("env"))
         ok, idx = monitor(ctx, events)
         if not ok:
             ctx.violation("replay[%s]:%s" % (rp["mode"], _situation(events, idx)), {"event": events[idx], "index": idx}, replay=rp)
@@ -91,8 +91,11 @@ def run(ctx):
         if len(edges) < 500:
             ctx.fail("too few edges from %s: %d" % (cfg, len(edges)))
         ctx.sample({"edge": edges[len(edges) // 2]})
-        for mode in modes:
-            out = ctx.driver(b, ["votes-edges", mode], input_obj=edges, timeout=3000)
+        runs = [(m, None) for m in modes]
+        if cfg == "Votes_gen_a_vote.cfg":   # the release (request + leaf) must not depend on the node's event-log setting
+            runs += [(m, {"VERIF_EVENTLOG": "0"}) for m in modes]
+        for mode, env in runs:
+            out = ctx.driver(b, ["votes-edges", mode], input_obj=edges, timeout=3000, env=env)
             summ = [o for o in out if o.get("summary")][0]
             if summ["edges"] != len(edges):
                 ctx.fail("driver replayed %d of %d edges" % (summ["edges"], len(edges)))
@@ -103,7 +106,8 @@ def run(ctx):
                 if o.get("mismatch"):
                     st = o["step"]
                     sig = "%s:%s:pred(err=%s,rel=%s):%s" % (mode, st["act"], st.get("err", False), st.get("rel", False), "+".join(o["what"]))
-                    o["mode"] = mode
+                    o["mode"] = mode + ("" if env is None else ",eventlog-off")
+                    o["basemode"], o["env"] = mode, env
                     groups.setdefault(sig, []).append(o)
     if diverged and not groups:
         ctx.fail("%d edges diverged while re-creating their source state although no edge mismatched" % diverged)
@@ -120,7 +124,7 @@ def run(ctx):
         ctx.violation("edge[%s]:%s" % (o["mode"], _situation(o["trace"], idx)),
                       {"step": o["step"], "history": o["h"], "differs_in": o["what"], "predicted": o["pred"], "observed_voted": o["voted"],
                        "observed_status": o["status"], "call": o["got"], "cases_in_group": len(groups[sig])},
-                      replay={"kind": "votes", "mode": o["mode"], "addrs": addrs, "init": o["trace"][0]["cons"], "steps": steps})
+                      replay={"kind": "votes", "mode": o["basemode"], "env": o["env"], "addrs": addrs, "init": o["trace"][0]["cons"], "steps": steps})
     if drift:
         ctx.note("edge mismatches accepted by the monitor (storage / error-flag deviations the property permits): %s" % drift)
     n, ln = (10, 80) if q else (60, 150)
